@@ -2,6 +2,7 @@ package link_solicit
 
 import (
 	"bytes"
+	"encoding/binary"
 	"slices"
 
 	"github.com/aperturerobotics/bifrost/peer"
@@ -40,6 +41,9 @@ func ComputeSessionID(peerA, peerB peer.ID) []byte {
 func ComputeProtocolHash(sessionID []byte, protocolID protocol.ID, context []byte) []byte {
 	h := blake3.New()
 	h.Write(sessionID)
+	// length-prefix the protocol id so that (protocolID, context) is unambiguous
+	var lenBuf [binary.MaxVarintLen64]byte
+	h.Write(lenBuf[:binary.PutUvarint(lenBuf[:], uint64(len(protocolID)))])
 	h.Write([]byte(protocolID))
 	h.Write(context)
 
